@@ -284,6 +284,9 @@ Weights ==
     [] Profile = "gc" -> <<"pushblob", "pushblob", "repushblob", "manput", "manput", "manput", "manput", "manput", "mandel", "mandel",
                            "blobdel", "gc", "gc", "gcsubj", "gcsubj", "gcsubj", "age", "age", "restart", "restart", "pushmanblob",
                            "blobdelman", "blobdelman", "manputdig", "manputdig", "manrepush", "manrepush">>
+    \* tags moved and deleted over two manifests, then collections: the order of the entries of one digest in the index
+    \* (tagged, untagged left-over of a deleted tag) must not matter to what a collection keeps
+    [] Profile = "gctags" -> <<"pushblob", "manput", "manput", "manput", "manput", "mandel", "mandel", "mandel", "age", "gc", "gc", "restart">>
     [] Profile = "layout" -> <<"pushblob", "pushblob", "manput", "manput", "manput", "manputdig", "manputdig", "mandel", "mandel", "blobdel",
                                "gc", "gc", "age", "restart", "restart", "uppost", "uppatch", "upput", "updel">>
     [] Profile = "ro" -> <<"pushblob", "pushblob", "manput", "manput", "manput", "mandel", "reconf", "reconf",
